@@ -37,10 +37,12 @@ def draw_feat(ch, bias: dict | None = None) -> gen.Feat:
                     ("balance_reads", 0.4), ("value_calls", 0.5), ("symbolic_target", 0.15),
                     ("raw_symbolic_slot", 0.1)):
         setattr(f, name, ch.chance(p, "f." + name))
+    f.guards = 0 if ch.chance(0.15, "f.noguards") else ch.int(1, 3, "f.guards")
+    f.if_weight = ch.int(0, 4, "f.ifw")
     f.n_callees = ch.int(1, 3, "f.ncallees")
     f.call_depth = ch.int(1, 3, "f.calldepth")
     if bias:
-        f.__dict__.update(bias)
+        f.__dict__.update({k: v for k, v in bias.items() if v is not None})
     return f
 
 
@@ -67,7 +69,7 @@ def draw_world(ch, feat: gen.Feat, options: dict) -> E.EWorld:
                     value=value, balances=balances, options=options)
 
 
-def draw_sigma(ch, inp: E.Inputs, w: E.EWorld, harvested: list[int]) -> dict:
+def draw_sigma(ch, inp: E.Inputs, w: E.EWorld, harvested: list[int], small_keys=False) -> dict:
     s = {}
     for name, v in inp.vars.items():
         nbits = v.size()
@@ -79,6 +81,8 @@ def draw_sigma(ch, inp: E.Inputs, w: E.EWorld, harvested: list[int]) -> dict:
             s[name] = ch.choose([gen.EOA1, gen.EOA2, gen.TARGET, 0, 1, 2, 3] + list(w.accounts)[:2], "s.addr")
         else:
             k = ch.pick(4, "s.k")
+            if small_keys and k >= 2:
+                k = 1
             if k == 0 and harvested:
                 s[name] = (ch.choose(harvested, "s.h") + ch.choose([0, 1, -1], "s.hd")) & ((1 << nbits) - 1)
             elif k == 1:
@@ -112,6 +116,14 @@ def quick_member(conds, subst):
         if not z3.is_true(r):
             undecided = True
     return None if undecided else True
+
+
+def _all_frames(fr):
+    out = [fr]
+    for t in fr.trace:
+        if hasattr(t, "trace"):
+            out.extend(_all_frames(t))
+    return out
 
 
 def diagnose(w, conc, created, fr_ctx, m, ex, world_addrs, base_mism):
@@ -153,7 +165,7 @@ def E_run_reference(w, conc, created, quirks=frozenset(), cheat=None, cheat_addr
 
 
 def engine_run(ch, *, bias=None, unknown_rates=(0.0, 0.0, 0.03, 0.3, 1.0), n_sigmas=6, max_paths=48,
-               keep_log=False, check_pruned=True, options_bias=None):
+               keep_log=False, check_pruned=True, options_bias=None, small_keys=False):
     """one simulated run; returns (violations, stats dict)"""
     # ---------------- swarm (drawn first so that it shrinks last)
     unknown_rate = ch.choose(list(unknown_rates), "sw.unknown")
@@ -234,6 +246,10 @@ def engine_run(ch, *, bias=None, unknown_rates=(0.0, 0.0, 0.03, 0.3, 1.0), n_sig
                 probe("opaque_skipped")
                 return
             probe("pairs_judged")
+            frames = _all_frames(fr)
+            probe("ref_subframes", len(frames) - 1)
+            probe("ref_failed_subframes", sum(1 for f in frames[1:] if f.error is not None))
+            probe("ref_loads", sum(1 for f in frames for t in f.trace if isinstance(t, tuple) and t[0] == "sload"))
             mm = E.compare_frames(m, r.context, fr)
             if any(k == "stuck-subframe" for k, _ in mm):
                 probe("stuck_subframe")
@@ -243,11 +259,15 @@ def engine_run(ch, *, bias=None, unknown_rates=(0.0, 0.0, 0.03, 0.3, 1.0), n_sig
             if mm:
                 q = diagnose(w, conc, created, r.context, m, r.ex, world_addrs + created, mm)
                 kind = mm[0][0]
-                disc = f"{kind}" + (f":explained-by={q}" if q else "")
+                disc = f"quirk={q}" if q else f"{kind}"
+                subs = [f for f in _all_frames(fr) if f is not fr]
                 violations.append(dict(oracle="ENGINE:endstate-mismatch", disc=disc,
                                        detail=f"path {r.index} ({r.error_kind or 'success'}), input {origin} "
                                               f"{ {k: hex(v) for k, v in sigma.items()} }: " + "; ".join(t for _, t in mm[:4]),
-                                       kind=kind))
+                                       kind=kind, kinds=sorted({k for k, _ in mm}), quirk=q,
+                                       sub_kinds=sorted({k for k, t in mm if "/" in t.split(":", 1)[0]}),
+                                       ref_subframes=len(subs),
+                                       ref_failed_subframes=sum(1 for f in subs if f.error is not None)))
 
         # ---------------- model-first: at least one sigma per satisfiable reported path
         nonstuck = [r for r in reports if not r.stuck]
@@ -265,16 +285,13 @@ def engine_run(ch, *, bias=None, unknown_rates=(0.0, 0.0, 0.03, 0.3, 1.0), n_sig
             judge(r, m, sigma, "model")
         # ---------------- generated sigmas: membership in every path + coverage
         for k in range(n_sigmas):
-            sigma = draw_sigma(ch, inp, w, harvested)
+            sigma = draw_sigma(ch, inp, w, harvested, small_keys)
             subst = [(vars_[n], z3.BitVecVal(v, vars_[n].size())) for n, v in sigma.items()]
             conc = inp.concrete(sigma)
             members = []
             unknown_any = False
             stuck_member = False
             for r in reports:
-                qm = quick_member(r.conditions, subst) if subst else None
-                if qm is False:
-                    continue
                 pv = pathval_for(r)
                 st, m = pv.solve([(vars_[n], v) for n, v in sigma.items()])
                 if st == "sat":
